@@ -429,6 +429,8 @@ static void run_input(const char *caseid, int kind, int mut, int seedno,
     }
 }
 
+static int nmut_plan = NMUT;
+
 static long trunc_total(int all)
 {
     long t = 0;
@@ -478,6 +480,8 @@ int main(int argc, char **argv)
 	    (int)getpid());
     make_seeds();
     lf_install_alarm();
+    if (getenv("LF_NMUT") != NULL)	/* replay of case ids of an older plan */
+	nmut_plan = atoi(getenv("LF_NMUT"));
     if (argc >= 3 && strcmp(argv[1], "count") == 0) {
 	printf("%ld\n", trunc_total(strcmp(argv[2], "truncall") == 0));
 	return 0;
@@ -525,14 +529,14 @@ int main(int argc, char **argv)
 	long c = atol(argv[3]);
 	int kind = (int)(c % NKINDS);
 	long j = c / NKINDS;
-	int mut = (int)(j % NMUT);
-	int seedno = (int)((j / NMUT) % nseeds[kind]);
+	int mut = (int)(j % nmut_plan);
+	int seedno = (int)((j / nmut_plan) % nseeds[kind]);
 	vt_rng_t rng;
 	buf_t in;
 
 	vt_seed(&rng, seed * 1000003ull + (uint64_t)c);
 	if (mut == M_YAMLKIND && kind < K_VNACAL)
-	    mut = M_TOKDEL + (int)(j / NMUT) % 3;
+	    mut = M_TOKDEL + (int)(j / nmut_plan) % 3;
 	lf_mutate(kind, mut, seedno, &rng, &in);
 	fprintf(stderr, "kind %s mut %s seed %d len %ld\n", kind_name[kind],
 		mut_name[mut], seedno, (long)in.n);
@@ -548,15 +552,15 @@ int main(int argc, char **argv)
 
 	    cf_leak_force = c + 1 >= to;
 	    long j = c / NKINDS;
-	    int mut = (int)(j % NMUT);
-	    int seedno = (int)((j / NMUT) % nseeds[kind]);
+	    int mut = (int)(j % nmut_plan);
+	    int seedno = (int)((j / nmut_plan) % nseeds[kind]);
 	    vt_rng_t rng;
 	    buf_t in;
 	    char cid[64];
 
 	    vt_seed(&rng, seed * 1000003ull + (uint64_t)c);
 	    if (mut == M_YAMLKIND && kind < K_VNACAL)
-		mut = M_TOKDEL + (int)(j / NMUT) % 3;
+		mut = M_TOKDEL + (int)(j / nmut_plan) % 3;
 	    lf_mutate(kind, mut, seedno, &rng, &in);
 	    snprintf(cid, sizeof(cid), "fuzz:%llu:%ld",
 		    (unsigned long long)seed, c);
